@@ -164,9 +164,15 @@ func (d *Discharger) discharge(o *Obligation, ar *Arith) {
 	var results []solveResult
 	if !d.thorough {
 		quickT := d.timeout
+		if o.Cover || o.MustFail {
+			// reachability covers and known-finding canaries are expected to be
+			// satisfiable: a short single-solver attempt is enough (an undecided
+			// cover is only noted, an undecided canary still reproduces)
+			quickT = 3 * time.Second
+		}
 		r := runSolver(ctx, solvers[0], fname, quickT)
 		results = append(results, r)
-		if r.status != "unsat" && r.status != "sat" {
+		if r.status != "unsat" && r.status != "sat" && !o.Cover && !o.MustFail {
 			ch := make(chan solveResult, 2)
 			for _, s := range solvers[1:] {
 				go func(s SolverSpec) { ch <- runSolver(ctx, s, fname, d.timeout) }(s)
@@ -187,6 +193,31 @@ func (d *Discharger) discharge(o *Obligation, ar *Arith) {
 		}
 		for range solvers {
 			results = append(results, <-ch)
+		}
+	}
+	// retry ladder (DESIGN 2.8): nobody was definitive -> one more attempt with
+	// six times the budget on the two z3 versions, so that a loaded machine
+	// does not turn a slow proof into an alarm
+	if !o.Cover && !o.MustFail {
+		definitive := false
+		for _, r := range results {
+			if r.status == "unsat" || r.status == "sat" {
+				definitive = true
+			}
+		}
+		if !definitive {
+			ch := make(chan solveResult, 2)
+			for _, s := range solvers[:2] {
+				go func(s SolverSpec) { ch <- runSolver(ctx, s, fname, 6*d.timeout) }(s)
+			}
+			for range solvers[:2] {
+				r2 := <-ch
+				results = append(results, r2)
+				if r2.status == "unsat" || r2.status == "sat" {
+					cancel()
+					break
+				}
+			}
 		}
 	}
 	nUnsat, nSat := 0, 0
